@@ -65,6 +65,12 @@ func (f *Same) Call(s *slip.Scope, args slip.List, depth int) slip.Object {
 }
 
 func same(x, y slip.Object) slip.Object {
+	if cmp, ok := exactCompare(x, y); ok {
+		if cmp != 0 {
+			return nil
+		}
+		return y
+	}
 	x, y = slip.NormalizeNumber(x, y)
 	switch tx := x.(type) {
 	case slip.Fixnum:
